@@ -328,6 +328,20 @@ func runHubGen(c *h.Ctx, r *h.Report, focus string) {
 
 		return
 	}
+	if focus == "events" {
+		// a tracked connection that the hub itself ends because its buffer overflowed (stalled writer, more than
+		// the buffer's worth of matching updates): its end must be announced like any other
+		for i, k := 0, c.Scale(3, 30); i < k; i++ {
+			rr := c.Rand.Fork()
+			cs := genOverflowCase(rr, 1000)
+			cs.Cfg.Subscriptions = true
+			cs.ExpectAll = false
+			watch := claimsJSON("subscribe", []string{"*"}, "w")
+			cs.Ops = append([]hubOp{{Op: "sub", Label: 1001, Topics: []string{"/.well-known/mercure/subscriptions/{topic}/{subscriber}"}, Claims: watch}}, cs.Ops...)
+			runHubCase(c, r, o, cs, g)
+			r.Count("case:tracked-connection-ended-by-overflow")
+		}
+	}
 	n := c.Scale(300, 5000)
 	for i := 0; i < n; i++ {
 		cs := genHubCase(c.Rand.Fork(), o, focus)
